@@ -678,6 +678,8 @@ def _run_impl(case):
             signal.signal(signal.SIGVTALRM, old)
     if k == "rails":
         return run_rails(case)
+    if k == "tokens":
+        return run_tokens(case)
     if k == "api":
         return api.run_api(case, _Clock, _FakeRandomBits)
     raise ValueError(k)
@@ -789,10 +791,13 @@ def run_ser(case):
         obs["sharing_kept"] = pv.sharing_signature(back) == sig0
         obs["aliased_lists_after"] = pv.aliased_lists(back)
         return obs
+    # Every value goes through the repo's own `state_to_json` / `json_to_state` (and therefore through its `json.dumps` /
+    # `json.loads` calls with whatever options they pass): the value sits in the global context of an otherwise empty real `State`;
+    # the part of the document that encodes it is what the model is asked about.  `d` (python ids still in it) is used for the
+    # refs comparison only.
+    wrapper = _M["flows"].State(flow_states={}, flow_configs={}, context={"v": obj})
     try:
-        # `state_to_json` is `encode_to_dict` + the repo's own `json.dumps` call (with whatever options it passes): every value goes
-        # through it, whatever the root; `d` (python ids still in it) is only used for the refs comparison
-        text = ser.state_to_json(obj)
+        text = ser.state_to_json(wrapper)
         d = ser.encode_to_dict(obj, {})
     except Exception as e:  # noqa
         obs["enc_exc"] = _exc_kind(e)
@@ -804,11 +809,16 @@ def run_ser(case):
         obs["enc_refs"] = pv.real_encoding_normal_form(d, ids)
     except Exception:  # noqa  -- a value outside the labelled universe (functools.partial leaves are fine, unknown classes are not)
         pass
-    parsed = json.loads(text)
-    if '"__id"' not in text:
-        obs["enc"] = pv.plain_json_to_model(parsed)
     try:
-        back = ser.decode_from_dict(json.loads(text), {})
+        sub = json.loads(text)["value"]["context"]["value"]["v"]
+    except Exception as e:  # noqa
+        from ..translate.util import TieBroken
+
+        raise TieBroken(f"state_to_json: the document of a State no longer has value.context.value.<name> ({type(e).__name__})")
+    if '"__id"' not in text:
+        obs["enc"] = pv.plain_json_to_model(sub)
+    try:
+        back = ser.json_to_state(text).context["v"]
     except Exception as e:  # noqa
         obs["dec_exc"] = _exc_kind(e)
         obs["dec_msg"] = str(e)[:120]
@@ -817,6 +827,31 @@ def run_ser(case):
     obs["sharing_kept"] = pv.sharing_signature(back) == sig0
     obs["aliased_lists_after"] = pv.aliased_lists(back)
     return obs
+
+
+def run_tokens(case):
+    """text layer: what the repo's `state_to_json` really writes for each kind of float and what `json_to_state` reads back
+    (the token is cut out of the document of a State whose global context holds the float under the name "v")"""
+    ser, flows = _M["ser"], _M["flows"]
+    rows = []
+    for code in ("nan", "inf", "-inf", "-0", [1, 1]):
+        x = pv.fbuild(code)
+        row = {"f": code}
+        try:
+            text = ser.state_to_json(flows.State(flow_states={}, flow_configs={}, context={"v": x}))
+        except Exception as e:  # noqa
+            row["dumps"] = _exc_kind(e)
+            rows.append(row)
+            continue
+        row["dumps"] = "ok"
+        m = re.search(r'"v": ([^,}\s]+)', text)
+        row["token"] = m.group(1) if m else None
+        try:
+            row["back"] = pv.fcode(ser.json_to_state(text).context["v"])
+        except Exception as e:  # noqa
+            row["back"] = "EXC:" + _exc_kind(e)
+        rows.append(row)
+    return {"rows": rows}
 
 
 def run_cleanup(case):
@@ -1337,6 +1372,8 @@ def model_requests(case, obs):
         if "cv" in obs:
             reqs.append({"m": "C11.shared", "t": obs["cv"]})
         return reqs
+    if case["kind"] == "tokens":
+        return [{"m": "C11.tokens"}]
     if case["kind"] == "cleanup":
         return [{"m": "C11.cleanup", "now": case["now"], "flows": case["flows"], "idx": case["idx"], "actions": case["actions"]}]
     return []
@@ -1374,6 +1411,20 @@ def compare(case, obs, mouts):
                 return "encoder with refs differs from Shared.encodeC: " + first_diff(obs["enc_refs"], want)
             if not mouts[1]["wf"] or not mouts[1]["decodes"]:
                 return "model: Shared.decodeC fails on Shared.encodeC output (wf=%s)" % mouts[1]["wf"]
+        return None
+    if case["kind"] == "tokens":
+        for r, mr in zip(obs["rows"], m["rows"]):
+            if r["f"] != mr["f"]:
+                return "tokens: row order"
+            want = "ok" if mr["dumps"] == "ok" else mr["dumps"].get("err")
+            if r["dumps"] != want:
+                return f"json.dumps of float {r['f']}: implementation {r['dumps']}, model {want} (allow_nan={m['allow_nan']})"
+            if r["dumps"] != "ok":
+                continue
+            if mr["token"] is not None and (r["token"] != mr["token"] or r["back"] != mr["back"]):
+                return f"text layer, float {r['f']}: implementation writes {r['token']} and reads back {r['back']}, model {mr['token']} / {mr['back']}"
+            if mr["token"] is None and r["token"] in ("NaN", "Infinity", "-Infinity"):
+                return f"text layer: the finite float {r['f']} is written as the constant {r['token']}"
         return None
     if case["kind"] == "cleanup":
         if "exc" in obs:
@@ -1456,6 +1507,13 @@ def oracle(case, obs):
                     return f"clean-up dropped a live flow uid from a scope of {f['uid']}: {l1} vs {l0}"
         return None
     if "skip" in obs:
+        return None
+    if k == "tokens":
+        for r in obs["rows"]:
+            if r["dumps"] != "ok":
+                return f"state_to_json raises on a State whose global context holds the float {r['f']}: {r['dumps']}"
+            if r["back"] != r["f"]:
+                return f"the float {r['f']} in the global context is restored as {r['back']} (written as {r['token']})"
         return None
     if k == "rails":
         for i, (a, b) in enumerate(zip(obs["live"], obs["saved"])):
@@ -1609,7 +1667,7 @@ def signature(case, obs, msg):
         if any(_removable(f, case["now"]) and f["uid"] in needed for f in case["flows"]):
             return "cleanup-dangling-parent"
         return None
-    if k in ("rails", "api"):
+    if k in ("rails", "api", "tokens"):
         return None
     probs = obs.get("problems") or []
     if not probs:
@@ -1647,6 +1705,8 @@ def nontrivial(case, obs):
         return obs.get("n_shared", 0) > 0 or s.count("[") > 6
     if k == "cleanup":
         return "flows" in obs and 0 < len(obs["flows"]) < len(case["flows"])
+    if k == "tokens":
+        return True
     if k == "rails":
         return "live" in obs and sum(1 for o in obs["live"] if o and not isinstance(o, str)) >= 2
     if k == "api":
@@ -1691,6 +1751,8 @@ def tags(case, obs):
             t.append("removed:" + str(min(len(case["flows"]) - len(obs["flows"]), 4)))
             if any(abs(-f["updated"] - AGE_US) <= 1 for f in case["flows"]):
                 t.append("boundary-age")
+    elif k == "tokens":
+        t.extend("token:" + str(r.get("token")) for r in obs["rows"])
     elif k == "rails":
         t.append("rails-turns:" + str(len(case["turns"])))
         if "skip" in obs:
